@@ -412,7 +412,18 @@ def target_spec(c):
                 dists.append("z%d" % i)  # log |dz/dx|
             else:
                 dists.append({"id": "d%d" % i, "type": "MultivariateNormal", "x": x, "parameters": {"loc": tt.P("d%d.loc" % i, b["loc"]), "precision_matrix": tt.P("d%d.prec" % i, b["prec"])}})
+    if c.get("offset"):
+        # a constant term of the log joint (a Normal density of a fixed datum far in its tail): the position never
+        # enters it, so trajectories are unchanged, but |log joint| becomes ~1e8-1e10 and anything obtained by
+        # cancellation against the potential loses its digits (seed C16-12)
+        dists.append({"id": "doff", "type": "Distribution", "distribution": "torch.distributions.Normal", "x": tt.P("doff.x", [float(c["offset"])]),
+                      "parameters": {"loc": tt.P("doff.loc", [0.0]), "scale": tt.P("doff.scale", [1.0])}})
     return [{"id": "joint", "type": "JointDistributionModel", "distributions": dists}], ids
+
+
+def offset_cases():
+    toy = ("block", "block", "mvn")
+    return st.tuples(cases(targets=toy, operator=True), st.sampled_from([2e4, 6e4, 1.5e5])).map(lambda t: dict(t[0], offset=t[1]))
 
 
 class Built:
@@ -482,6 +493,9 @@ class Oracle:
         else:
             t = lf.BlockTarget(c["blocks"])
             self.logp = t.logp
+            if c.get("offset"):
+                const = -0.5 * float(c["offset"]) ** 2 - 0.5 * math.log(2.0 * math.pi)
+                self.logp = lambda q: t.logp(q) + const
             self.grad = t.grad
             self.gabs = t.gabs
 
@@ -1433,6 +1447,7 @@ def subchecks(tier):
         Sub("energy", body_energy, strategy=lambda: cases(targets=toy, eps_lo=4e-3, max_L=16 if q else 30), quick=200, thorough=10000, pretags=pretags),
         Sub("energy_phylo", body_energy, strategy=lambda: cases(targets=ph, phylo_max_L=10, eps_lo=4e-3), quick=16, thorough=320, pretags=pretags),
         Sub("operator", body_operator, strategy=lambda: cases(targets=toy, operator=True), quick=400, thorough=20000, pretags=pretags),
+        Sub("operator_offset", body_operator, strategy=offset_cases, quick=120, thorough=4000, pretags=pretags),
         Sub("operator_phylo", body_operator, strategy=lambda: cases(targets=ph, phylo_max_L=20, operator=True), quick=24, thorough=600, pretags=pretags),
         Sub("operator_failure", body_operator, strategy=lambda: cases(targets=("block",), operator=True, harsh=True, eps_lo=0.1), quick=60, thorough=3000, pretags=pretags),
         Sub("operator_retry", body_operator, strategy=lambda: cases(targets=("block",), operator=True, raw=True, eps_lo=0.1, max_L=10), quick=160, thorough=6000, pretags=pretags),
